@@ -211,6 +211,15 @@ impl utils::verif::Hooks for Snapper {
     fn now_secs(&self) -> Option<u64> {
         Some(1_750_000_000)
     }
+    fn stamp_mtime(&self, path: &Path) {
+        // strictly increasing simulated mtimes: the order in which consolidation sees shards must not depend on the
+        // kernel's coarse timestamps
+        static T: std::sync::atomic::AtomicU64 = std::sync::atomic::AtomicU64::new(1_750_000_000_000);
+        let t = T.fetch_add(1000, std::sync::atomic::Ordering::SeqCst);
+        if let Ok(f) = std::fs::OpenOptions::new().write(true).open(path) {
+            let _ = f.set_modified(std::time::UNIX_EPOCH + Duration::from_millis(t));
+        }
+    }
 }
 
 /// Variants of a snapshot in which a leftover temp file is cut to a prefix (states inside a multi-write flush).
